@@ -33,8 +33,15 @@ package oxia
 // remembered, not forwarded); after a batch has been handled without error it is the
 // last offset received; a failed batch does not move the position.
 //
+//@ func convertNotification(key, n) (res)
+//@ trusted
+//@ modifies nothing
+//@ ensures res != nil && fresh(res)
+//@ note trusted: builds the client-side notification; panics on a notification type outside the four defined ones
+
 //@ func shardNotificationsManager.multiplexNotificationBatch(snm, nb) (err)
 //@ property C17
+//@ loop 0 modifies fresh
 //@ requires nb != nil && snm.nm != nil && snm.nm.initWaitGroup != nil && snm.log != nil && snm.ctx != nil
 //@ ensures snm.initialized
 //@ ensures !old(snm.initialized) ==> err == nil && snm.lastOffsetReceived == nb.Offset
@@ -43,8 +50,9 @@ package oxia
 
 //@ func shardNotificationsManager.multiplexNotificationBatchOnce(snm, notifications) (err)
 //@ property C17
+//@ assume at call Err#1: result != nil because "a cancelled context stays cancelled: Err was non-nil just before"
 //@ requires notifications != nil && snm.nm != nil && snm.nm.initWaitGroup != nil && snm.log != nil && snm.ctx != nil
-//@ ensures err == nil ==> snm.initialized
+//@ ensures err == nil ==> snm.initialized && snm.lastOffsetReceived == ghost(lastRecv, notifications)
 //@ ensures err != nil && old(snm.initialized) ==> snm.lastOffsetReceived == old(snm.lastOffsetReceived)
 //@ ensures old(snm.initialized) ==> snm.initialized
 //@ modifies *
